@@ -937,7 +937,8 @@ func (b *bitstream) skipVarUintLen(max uint64) (uint64, error) {
 // Remaining returns the number of bytes remaining in the current container.
 func (b *bitstream) remaining() uint64 {
 	if b.stack.empty() {
-		return math.MaxUint64
+		// Not bounded by a container; an offset past the largest uint64 does not exist.
+		return math.MaxUint64 - b.pos
 	}
 
 	end := b.stack.peek().end
